@@ -63,9 +63,18 @@ class C08(PropCheck):
         for seq in itertools.product(ALPHA, repeat=depth):
             cs.append((PREFIX + " ; " + " ; ".join(with_probes(seq)), f"bfs-depth{depth}"))
         res.exhaustive_blocks.append(f"all {len(cs)} call sequences of length {depth} over the 15-call alphabet")
+        # the eight calls that interact through pipe 0 (one address used for reading and transmitting), every sequence of
+        # 4 (thorough: 5) of them followed by each of the two observation points
+        core = [f"a open_rx_pipe 0 {T1}", "a close_rx_pipe 0", f"a open_tx_pipe {T1}", f"a open_tx_pipe {T2}",
+                "a set_auto_ack F 0", "a set_auto_ack T 0", "a set listen T", "a set listen F"]
+        cd = 4 if tier == "quick" else 5
+        for seq in itertools.product(core, repeat=cd):
+            for last in ("a set listen T", f"a open_tx_pipe {T1}"):
+                cs.append((PREFIX + " ; " + " ; ".join(with_probes(list(seq) + [last])), f"core-depth{cd + 1}"))
+        res.exhaustive_blocks.append(f"all {2 * len(core) ** cd} sequences of {cd} pipe-0 calls + an observation point")
         if tier == "quick":
             # sample of depth 4 and 5
-            for d, n in ((4, 1500), (5, 1500)):
+            for d, n in ((4, 600), (5, 600)):
                 for _ in range(n):
                     seq = [rng.choice(ALPHA) for _ in range(d)]
                     cs.append((PREFIX + " ; " + " ; ".join(with_probes(seq)), f"sample-depth{d}"))
